@@ -501,7 +501,13 @@ func main() {
 		"sites: every call form x Call/Go/Defer x package layout in generated multi-package modules; distinct = distinct (specification, identifier/site) text"
 	stageRegex(rep)
 	stageMatrix(rep, nil)
-	stageSites(rep)
+	rounds := 1
+	if lib.Thorough() {
+		rounds = 5
+	}
+	for k := 0; k < rounds; k++ {
+		stageSites(rep, k)
+	}
 	stageE2E(rep)
 	rep.Finish()
 }
